@@ -34,7 +34,7 @@ type Msg struct {
 }
 
 // Q is one query. From/Until: -1 = not given, else second offset. Cont: 0 none, 1 page from the oldest id to
-// exhaustion, 2 one continuation from the Pick-th returned id.
+// exhaustion, 2 one continuation from the Pick-th returned id, 3 continuation id taken from the same query without its window.
 type Q struct {
 	C      int      `json:"c"`
 	Filter []string `json:"filter"`
@@ -69,7 +69,7 @@ func genCase(disk bool) func(t *rapid.T) Case {
 		for i, n := 0, rapid.IntRange(1, 6).Draw(t, "nq"); i < n; i++ {
 			q := Q{C: rapid.SampledFrom([]int{0, 0, 0, 1, 1, 2}).Draw(t, "qc"), From: -1, Until: -1,
 				Limit: rapid.SampledFrom([]int{0, 1, 1, 1, 2, 2, 3, 5, 40, 100, 1 << 20, 1 << 31, 1 << 62}).Draw(t, "limit"),
-				Cont:  rapid.SampledFrom([]int{0, 1, 1, 1, 2}).Draw(t, "cont"), Pick: rapid.IntRange(0, 100).Draw(t, "pick")}
+				Cont:  rapid.SampledFrom([]int{0, 1, 1, 1, 2, 3, 3}).Draw(t, "cont"), Pick: rapid.IntRange(0, 100).Draw(t, "pick")}
 			q.Filter = []string{rapid.SampledFrom([]string{"a", "a", "b", "b", "c"}).Draw(t, "f0")}
 			for j, d := 1, rapid.SampledFrom([]int{1, 1, 1, 2, 2, 3, 4, 5}).Draw(t, "fdepth"); j < d; j++ {
 				q.Filter = append(q.Filter, rapid.SampledFrom([]string{"a", "b", "+", "+", "c"}).Draw(t, "fl"))
@@ -346,6 +346,52 @@ func run(c Case) vkit.Result {
 			}
 			labels["continuation-arbitrary-id"] = true
 		}
+		if q.Cont == 3 && (q.From >= 0 || q.Until >= 0) {
+			// continuation id obtained from a wider query (same filter, no window), then used together with the window:
+			// the page holds the window's candidates that are older than that id
+			var wide []rec
+			for _, r := range recs {
+				if r.contract != contract || len(q.Filter) > len(r.levels) || r.time+int64(r.ttl) <= now {
+					continue
+				}
+				ok := true
+				for i, f := range q.Filter {
+					if f != "+" && f != r.levels[i] {
+						ok = false
+					}
+				}
+				if ok {
+					wide = append(wide, r)
+				}
+			}
+			if len(wide) > 0 {
+				sort.Slice(wide, func(i, j int) bool {
+					if wide[i].time != wide[j].time {
+						return wide[i].time > wide[j].time
+					}
+					return wide[i].seq > wide[j].seq
+				})
+				start := wide[q.Pick%len(wide)]
+				var rest []rec
+				for _, r := range cand {
+					if r.time < start.time || (r.time == start.time && r.seq < start.seq) {
+						rest = append(rest, r)
+					}
+				}
+				expN := page(rest)
+				gotN, err := s.Query(ssid(contract, q.Filter), tm(from), tm(until), start.id, q.Limit)
+				if err != nil {
+					return vkit.Failf("%s continuation: %v", desc, err)
+				}
+				if msg := compare(gotN, expN, fmt.Sprintf("continuation from the id of second %d (seq %d) returned by the same query without a window", start.time-base, start.seq)); msg != "" {
+					return vkit.Result{Fail: msg}
+				}
+				labels["continuation-id-from-wider-query"] = true
+				if start.time > until && until != 0 {
+					labels["continuation-id-newer-than-window"] = true
+				}
+			}
+		}
 	}
 	r := vkit.Result{NonTrivial: nontrivial}
 	for l := range labels {
@@ -452,15 +498,27 @@ func TestBigStore(t *testing.T) {
 
 type peerSurveyor struct{ peer func() storage.Storage }
 
+// junkMode: replies of further cluster members that do not hold a message store (a noop-storage peer answers an
+// ssdstore survey with an empty payload) or that are damaged: 0 none, 1 before the real reply, 2 after it, 3 both.
+var junkMode int
+var junkReplies = [][]byte{{}, {0}, {0xff, 0xff, 0xff}, []byte("not a frame at all")}
+
 type oneShot struct{ resp [][]byte }
 
 func (o oneShot) Gather(time.Duration) [][]byte { return o.resp }
 
 func (p *peerSurveyor) Query(typ string, payload []byte) (message.Awaiter, error) {
-	if out, ok := p.peer().OnSurvey(typ, payload); ok {
-		return oneShot{[][]byte{out}}, nil
+	var resp [][]byte
+	if junkMode&1 != 0 {
+		resp = append(resp, junkReplies[0], junkReplies[2])
 	}
-	return oneShot{}, nil
+	if out, ok := p.peer().OnSurvey(typ, payload); ok {
+		resp = append(resp, out)
+	}
+	if junkMode&2 != 0 {
+		resp = append(resp, junkReplies[1], junkReplies[3])
+	}
+	return oneShot{resp}, nil
 }
 
 // NodeMsg: a message stored on node Node at second T (all seconds distinct within a case).
@@ -477,6 +535,7 @@ type TwoNodeCase struct {
 		At     int      `json:"at"`
 		Filter []string `json:"filter"`
 		Limit  int      `json:"limit"`
+		Junk   int      `json:"junk,omitempty"`
 	} `json:"qs"`
 }
 
@@ -502,7 +561,9 @@ func genTwoNode(t *rapid.T) TwoNodeCase {
 			At     int      `json:"at"`
 			Filter []string `json:"filter"`
 			Limit  int      `json:"limit"`
-		}{At: rapid.IntRange(0, 1).Draw(t, "at"), Limit: rapid.SampledFrom([]int{0, 1, 1, 2, 3, 5, 100}).Draw(t, "limit")}
+			Junk   int      `json:"junk,omitempty"`
+		}{At: rapid.IntRange(0, 1).Draw(t, "at"), Limit: rapid.SampledFrom([]int{0, 1, 1, 2, 3, 5, 100}).Draw(t, "limit"),
+			Junk: rapid.SampledFrom([]int{0, 0, 1, 2, 3}).Draw(t, "junk")}
 		q.Filter = []string{rapid.SampledFrom([]string{"a", "a", "b"}).Draw(t, "f0")}
 		if rapid.Bool().Draw(t, "deeper") {
 			q.Filter = append(q.Filter, rapid.SampledFrom([]string{"a", "b", "+"}).Draw(t, "f1"))
@@ -567,9 +628,16 @@ func runTwoNode(c TwoNodeCase) vkit.Result {
 		if len(exp) > q.Limit {
 			exp = exp[:q.Limit]
 		}
+		junkMode = q.Junk
 		got, err := twoNodes[q.At].Query(ssid(contract, q.Filter), time.Unix(0, 0), time.Unix(0, 0), nil, q.Limit)
+		junkMode = 0
 		if err != nil {
 			return vkit.Failf("query: %v", err)
+		}
+		for i := range got {
+			if i > 0 && got[i-1].Time() > got[i].Time() {
+				return vkit.Failf("query %d at node %d (filter %v, limit %d, undecodable replies mode %d): result not ordered by non-decreasing time", qi, q.At, q.Filter, q.Limit, q.Junk)
+			}
 		}
 		want := map[string]rec2{}
 		remote := false
@@ -580,7 +648,7 @@ func runTwoNode(c TwoNodeCase) vkit.Result {
 			}
 		}
 		if len(got) != len(exp) {
-			return vkit.Failf("query %d at node %d (filter %v, limit %d): %d messages returned, expected the %d most recent of the %d matching messages stored on both nodes", qi, q.At, q.Filter, q.Limit, len(got), len(exp), len(cand))
+			return vkit.Failf("query %d at node %d (filter %v, limit %d, undecodable replies mode %d): %d messages returned, expected the %d most recent of the %d matching messages stored on both nodes", qi, q.At, q.Filter, q.Limit, q.Junk, len(got), len(exp), len(cand))
 		}
 		for _, m := range got {
 			if _, ok := want[string(m.ID)]; !ok {
